@@ -368,3 +368,45 @@ func Verif_C08_silent_client_does_not_block_others() {
 		verifapi.Assert("accept-loop-ends-with-its-context", false)
 	}
 }
+
+// Verif_C05_results_stream_written_completely (property C05): the real SockControl.WriteToConn, which
+// copies the results channel of a unit onto the control connection: 1..4 chunks, each either exactly
+// one full read buffer (65536 bytes, as a reader working through a backlog delivers) or a short one,
+// then the end of the stream. Everything handed over is on the connection, in order, when it returns -
+// also when the LAST chunk is a full one.
+func Verif_C05_results_stream_written_completely() {
+	conn := verifNewConn(nil)
+	sc := NewSockControl(conn)
+	n := 1 + verifapi.Choose(4)
+	ch := make(chan []byte, 4)
+	total := 0
+	var marks []byte
+	for i := 0; i < n; i++ {
+		size := 65536
+		if verifapi.Bool() {
+			size = 3
+		}
+		b := make([]byte, size)
+		b[0] = byte(i + 1)
+		marks = append(marks, byte(i+1))
+		total += size
+		ch <- b
+	}
+	close(ch)
+	err := sc.WriteToConn("Streaming results for work unit u\n", ch)
+	verifapi.Cover("stream-ended")
+	verifapi.Assert("write-reports-success", err == nil)
+	got := 0
+	var seen []byte
+	for i, w := range *conn.writes {
+		if i == 0 {
+			continue // the header line
+		}
+		if len(w) > 0 {
+			seen = append(seen, w[0])
+		}
+		got += len(w)
+	}
+	verifapi.Assert("every-byte-handed-over-is-written", got == total)
+	verifapi.Assert("chunks-in-order", len(seen) >= 1 && seen[0] == marks[0])
+}
